@@ -16,7 +16,6 @@ func checkC18(r *ev.Run) {
 	nScripts := r.N(16, 200)
 	perScript := r.N(60, 160)
 	r.Rule("case = one send transaction inside a generated block (1-5 sends per block, 12 plain accounts): amounts {1, small, balance-fee-1, balance-fee, balance-fee+1, balance, balance+1, 10^18, 0, negative} relative to the generator's running balance estimate; recipients {existing account, brand-new address, self, module accounts}; executed by the real app with a decoded state snapshot before and after every DeliverTx. Oracle on observed states: accepted => delta == {sender -amount-fee, recipient +amount, fee collector +fee} (self-send: fee only); rejected => delta is {sender -fee, collector +fee} or empty; sender that could not cover amount+fee in the pre-state must be rejected; nothing but the auth store changes; post-state coin sets canonical and supply == sum of balances. Non-trivial = distinct (amount class, recipient class, outcome) triple; distinct_nontrivial counts those triples.")
-	classes := map[string]bool{}
 	ev.ForEach(nScripts, workers(), func(si int) {
 		if r.Only != "" && r.Only != "*" && r.Only != fmt.Sprint(si) {
 			return
@@ -117,7 +116,6 @@ func checkC18(r *ev.Run) {
 			cls := c.Labels["amount_class"] + "/" + c.Labels["recipient_class"] + "/" + map[bool]string{true: "accepted", false: "rejected"}[c.Res.Code == 0]
 			r.Count("class:"+cls, 1)
 			r.Case(cls, true)
-			classes[cls] = true
 		}
 		if !res.Done() {
 			r.Violation("node-exited", fmt.Sprintf("script %d: node ended with exit code %d: %s", si, res.ExitCode, res.Stderr), map[string]interface{}{"case": fmt.Sprint(si)})
